@@ -202,7 +202,18 @@ def leaf_count(s):
     return sum(leaf_count(c) for c in s[2])
 
 
+def corpus_with_random():
+    """the fixed corpus, plus `VERIF_RANDOM_TYPES=<n>:<seed>` random compositions (thorough tier)"""
+    spec_env = os.environ.get("VERIF_RANDOM_TYPES", "")
+    if not spec_env:
+        return list(CORPUS)
+    import randtypes
+    n, seed = (int(x) for x in spec_env.split(":"))
+    return list(CORPUS) + randtypes.random_types(n, seed)
+
+
 def main(out_rs, out_json):
+    CORPUS = corpus_with_random()
     g = Gen()
     entries = []
     arms = []
